@@ -2,6 +2,8 @@ import MosnVerif.Drive.DispatchCtx
 import MosnVerif.Drive.BufReuse
 import MosnVerif.Drive.HpackOrder
 import MosnVerif.Drive.StreamGen
+import MosnVerif.Drive.H2ClientTable
+import MosnVerif.Drive.ProxyGenDrive
 import MosnVerif.Drive.Util
 import MosnVerif.Model.StreamTableSpec
 import MosnVerif.Model.CorrelateSpec
@@ -160,8 +162,10 @@ def exOf (qs : List Nat) (k : Nat) : Option Nat :=
 
 def tokStr (t : String) : Option Nat := if t.startsWith "t" then (t.drop 1).toString.toNat? else none
 
-/-- classify an observed downstream frame `id/status/htok/btok` -/
-def parseDn (t : String) : Option (Int × Payload) :=
+/-- classify an observed downstream frame `id/status/htok/btok`. `hdrCh`: the protocol's responses have a header channel
+for the token (dubbo's have none: the body alone is the payload); `errTok`: a local error reply echoes the request's
+header (dubbo-thrift's Hijack copies the method name): acceptable iff it is the token of the request with that id -/
+def parseDnP (hdrCh errTok : Bool) (sent : List (Int × Nat)) (t : String) : Option (Int × Payload) :=
   match t.splitOn "/" with
   | [i, st, h, b] =>
     match parseInt? i, st.toNat? with
@@ -169,10 +173,17 @@ def parseDn (t : String) : Option (Int × Payload) :=
       if st == 0 then
         match tokStr h, tokStr b with
         | some x, some y => some (i, if x == y then .ok x else .mixed)
+        | none, some y => some (i, if !hdrCh && h == "-" then .ok y else .mixed)
         | _, _ => some (i, .mixed)
-      else some (i, if h == "-" && b == "-" then .err else .mixed)
+      else
+        let hOk := h == "-" || (errTok && (match tokStr h with
+          | some x => sent.any (fun r => r.1 == i && r.2 == x)
+          | none => false))
+        some (i, if hOk && b == "-" then .err else .mixed)
     | _, _ => none
   | _ => none
+
+def parseDn (t : String) : Option (Int × Payload) := parseDnP true false [] t
 
 def renderFrame (f : Int × Payload) : String :=
   match f.2 with
@@ -216,18 +227,18 @@ def replay (reqs : List Req) : Sys → List Nat → List (Nat × Nat) → List S
             else if t.startsWith "T" then replay reqs (step s (.fail k)) qs fw r
             else none
 
-def run (reqsT script : String) (impl0 : List String) : String :=
+def runP (pr : Proto) (hdrCh errTok : Bool) (reqsT script : String) (impl0 : List String) : String :=
   -- a 6th token `skew:<why>`: the run did not follow its plan's timing (three attempts); the schedule is not replayed,
   -- the predicate is still evaluated on the frames the client received
   let skew := impl0.length == 6 && (impl0.getLast?.getD "").startsWith "skew:"
   let impl := if skew then impl0.dropLast else impl0
   match (list reqsT).mapM parseReq, sentOf script, impl with
   | some reqs, some sent, [bT, cT, logT, upT, dnT] =>
-    match (bT.drop 1).toString.toNat?, (list dnT).mapM parseDn with
+    let sentReqs := sent.filterMap (fun k => reqs[k]?.map (fun q => (q.did, q.tok)))
+    match (bT.drop 1).toString.toNat?, (list dnT).mapM (parseDnP hdrCh errTok sentReqs) with
     | some base, some dn =>
-      let sentReqs := sent.filterMap (fun k => reqs[k]?.map (fun q => (q.did, q.tok)))
       if skew then s!"A {if specE2E sentReqs dn then "S" else "V"} skew" else
-      match replay reqs (init .bolt base) [] [] (list logT) with
+      match replay reqs (init pr base) [] [] (list logT) with
       | none => "E E bad-log"
       | some s =>
         let wireM := s.wire.map (fun x => s!"{x.1}/{x.2}")
@@ -242,17 +253,25 @@ def run (reqsT script : String) (impl0 : List String) : String :=
   | some _, some _, ["warmup-failed"] => "D S no-exchange-completes"
   | _, _, _ => "E E bad-case"
 
+def run (reqsT script : String) (impl0 : List String) : String := runP .bolt true false reqsT script impl0
+
 end E2E
 
 def run (caseToks impl : List String) : String :=
   match caseToks with
   | ["e2e", _, reqs, script] => E2E.run reqs script impl
+  | ["e2ex", pr, _, reqs, script] =>
+    match parseProto pr with
+    | some p => E2E.runP p (pr != "dubbo") (pr == "thrift") reqs script impl
+    | none => "E E bad-proto"
   | ["tbl", pr, base, ops] => tbl pr base ops impl
   | ["gen", pr, base, n] => genLine pr base n impl
   | ["ctx", proto, _stream, frames, chunks] => MosnVerif.Drive.DispatchCtx.run proto frames chunks impl
   | ["h1b", _nconn, plan] => MosnVerif.Drive.BufReuse.run plan impl
   | ["h2w", side, _mode, _w, resps] => MosnVerif.Drive.HpackOrder.run side resps impl
   | ["sgen", plan] => MosnVerif.Drive.StreamGen.run plan impl
+  | ["h2tbl", first, ops] => MosnVerif.Drive.H2ClientTable.run first ops impl
+  | ["pgen", timer, aEnd, rel] => MosnVerif.Drive.ProxyGenDrive.run timer aEnd rel impl
   | _ => "E E unknown-kind"
 
 end MosnVerif.Drive.C02
